@@ -10,7 +10,7 @@ CLAIMED = {
              ref="DESIGN.md section 2, C12"),
 }
 CLAIMED["C20"] = dict(
-    tech="exhaustive enumeration of all label strings up to length 6/7 over a 9-character alphabet (differential vs. regex reference parser, round trip, component deletion) + Hypothesis labels built from parts and get_label option subsets",
+    tech="exhaustive enumeration of all label strings up to length 6/7 over a 9-character alphabet (differential vs. regex reference parser, round trip, component deletion) + Hypothesis labels built from parts and get_label option subsets; coverage-guided fuzzing (atheris) of parse/format against the reference",
     text="Every string up to length 6 (quick; 7 thorough) over {A b 1 2 - = # ' *} is parsed with both separators and compared field by field with an independent regex parser of the documented label grammar; format(parse(s)) must give back s up to the two documented default literals; each of the five components is emptied in turn and must vanish alone. Longer labels are built from parts so the expected parse is known by construction; get_label is compared with category + requested decorations for every option subset. Exhaustive inside the stated bound, sampled beyond it.",
     note="Trusted: the regex reference parser/formatter in checks/C20.py (derived from parse_label's docstring). A lone '*' may or may not count as a trace; emptying the function under always_gf is not checked; numbering without marking accepts both label3 and label*3.",
     ref="DESIGN.md section 2, C20")
@@ -80,7 +80,7 @@ CLAIMED["C02"] = dict(
     note="Trusted: decoders in vlib/codecs_tree.py, xml.etree. Not generated: whitespace/control characters, empty fields, words of the form #ddd/#BOS/#EOS, parentheses in constituent labels (formats cannot carry them). TIGER-XML is written without label-decoration options.",
     ref="DESIGN.md section 2, C02")
 CLAIMED["C01"] = dict(
-    tech="Hypothesis corpora encoded by independent encoders with generated layouts and reader options, compared with model + expectation function; exhaustive enumeration of all bracket strings up to length 7/9 against a hand-written recogniser; single-edit mutations of well-formed bracket files",
+    tech="Hypothesis corpora encoded by independent encoders with generated layouts and reader options, compared with model + expectation function; exhaustive enumeration of all bracket strings up to length 7/9 against a hand-written recogniser; single-edit mutations of well-formed bracket files; coverage-guided fuzzing (atheris) of the bracket reader with the recogniser as oracle inside the target",
     text="Corpora of 1..4 (thorough 8) sentences over all tree shapes and hostile alphabets are written by independent encoders in export v3/v4 (headers, comments, secondary-edge columns, tabs or blanks, shuffled constituent lines, arbitrary numbering), brackets (arbitrary whitespace at every optional position, empty or labelled root, several sentences per line, material outside groups, empty POS), discobrackets and TIGER-XML (permuted attributes / nt / edge order, arbitrary ids, secedge noise, id styles, two encodings), plain or gzip, and read back with drawn reader options; the reader must yield exactly one well-formed tree per sentence, in order, equal to the model after an independently written expectation function of the options (gf_split, gf_separator, replace_parens, continuous, brackets_firstid, brackets_emptypos), and print nothing under quiet. Every string over {( ) blank a b} up to length 7 (thorough 9), with and without brackets_emptypos, is given to the bracket reader and to a hand-written recogniser: same trees, ValueError exactly for ill-formed input (including a group still open at end of input).",
     note="Trusted: encoders in vlib/codecs_tree.py, the recogniser and expectation functions in checks/C01.py. Not generated: values the formats cannot carry (see ASSUMPTIONS in the evidence). disco_reordered is only checked structurally; gf_split with a non-default separator only on labels without co-index.",
     ref="DESIGN.md section 2, C01")
